@@ -1816,6 +1816,12 @@ class ElseIf(OR):
     A symbolic single choice operation that can be used to choose between multiple symbolic expressions.
     """
 
+    def _can_use_cached_right_results_(self) -> bool:
+        """
+        :return: Whether results of the right branch may be served from the result cache.
+        """
+        return True
+
     def _evaluate__(self, sources: Optional[Dict[int, HashedValue]] = None, yield_when_false: bool = False) -> Iterable[Dict[int, HashedValue]]:
         """
         Constrain the symbolic expression based on the indices of the operands.
@@ -1836,7 +1842,8 @@ class ElseIf(OR):
                 any_left = True
                 left_value.update(sources)
                 if self.left._is_false_:
-                    if is_caching_enabled() and self.right_cache.check(left_value):
+                    if (is_caching_enabled() and self._can_use_cached_right_results_()
+                            and self.right_cache.check(left_value)):
                         yield from self.yield_final_output_from_cache(left_value, self.right_cache)
                         continue
                     right_prev = self.right._eval_parent_
